@@ -2,74 +2,214 @@
 
 The schedule-level guarantee (no lost wake-up for any interleaving) is not
 decided; claimed are the structural clauses it rests on.
+
+All rules are evaluated on entry points (exported functions, installed handlers, poll slots) with the
+static helpers inlined and values cached in locals resolved (h08.normalise); anchors are roles
+(the indirect call through iv_event.handler, list primitives applied to iv_state.events_pending /
+iv_event.list, the wake-up primitives), never names of static functions or of variables.
 """
-from ..core import (names_of, same_value, AnalysisBroken, Inliner, canon, strip, last_member, must_pass, relpath, norm_cond, walk, forward)
-from ..analyses import (is_call, holding, path_to, describe, exits_of, callback_kind, loops, innermost_loop,
-                        locksets, held, force_edges, prune_infeasible, list_empty_test, must_pass_from_block)
+from ..core import (AnalysisBroken, canon, strip, strip_load, last_member, lvalue_steps, norm_cond, walk, forward, root_var)
+from ..analyses import (is_call, holding, atoms_imply, path_to, describe, exits_of, callback_kind,
+                        locksets, held, lock_effect, force_edges, prune_infeasible)
 from .c11 import null_rule
-from . import c01
+from . import h08
+from .h08 import PENDING, LINK
+from .. import roles
 
 EVL = 'iv_state.event_list_mutex'
+EVL_KEY = ('iv_state', 'event_list_mutex')
+KICK = ('iv_state', 'events_kick')
+LOCAL = ('iv_state', 'events_local')
+OWNER = ('iv_event', 'owner')
+ADD = ('iv_list_add', 'iv_list_add_tail')
+UNLINK = ('iv_list_del', 'iv_list_del_init')
+WAKE = ('iv_task_register', 'iv_event_raw_post')
+WAITS = {'epoll_wait': 1, 'epoll_pwait': 1, 'epoll_pwait2': 1}
+KERNEL_RECORDS = ('epoll_event', 'epoll_data')
+WRAPPER = 'iv_event_run_pending_events'        # exported (iv_private.h): runs the calling thread's own events
 
 
 def run(ctx):
     ctx.rule('R-C08a', 'KICK-ON-EMPTY: the emptiness test of the owner\'s pending list and the add are in one region of the owner\'s '
                        'list mutex, test first; every path on which the list was empty reaches a wake-up of the owner '
                        '(local task / raw-event post / poll-method send), the chain being exhaustive', floor=4)
-    ctx.rule('R-C08b', 'the runner detaches the pending list and re-tests its batch only under the owner\'s mutex; the handler is called with no lock held', floor=4)
-    ctx.rule('R-C08c', 'an event is unlinked from the batch before its handler (a post during the handler re-queues it)', floor=1)
-    ctx.rule('R-C08d', 'only the owner runs its events: the runner is entered only from the owner-local task, the owner\'s kick '
-                       'raw event and the poll slots that saw the owner\'s own kick token', floor=4)
+    ctx.rule('R-C08b', 'the runner touches the pending list, the detached batch and the links of its events only under the owner\'s mutex '
+                       '(detach, batch re-test, element reads); the handler is called with no lock held', floor=4)
+    ctx.rule('R-C08c', 'an event is unlinked from the batch, under the mutex, between the definition of the object and its handler call '
+                       '(a post during the handler re-queues it); no second handler call without a new unlink', floor=1)
+    ctx.rule('R-C08d', 'only the owner runs its events: every entry point that reaches the handler call is the handler of the state\'s own '
+                       'local task / kick raw event (cookie = that state), the wrapper that runs the calling thread\'s state, or a poll '
+                       'slot that saw this thread\'s own kick token', floor=4)
     ctx.rule('R-C08g', 'NULL-CONTRADICTION in iv_event.c', floor=0)
     ctx.section(post)
     ctx.section(runner)
     ctx.section(who_runs)
 
 
+def pt(e):
+    return (e['_b'], e['_i'])
+
+
+class Acc:
+    """obligations about a source construct, aggregated over its copies (flag partitioning, inlining,
+    calling contexts): the construct satisfies the obligation iff every copy does"""
+    def __init__(self):
+        self.d = {}
+        self.order = []
+
+    def add(self, rid, inst, loc, ok, detail, fn=None, path=None):
+        k = (rid, inst, loc)
+        if k not in self.d:
+            self.d[k] = [True, detail, fn, None]
+            self.order.append(k)
+        r = self.d[k]
+        if not ok and r[0]:
+            r[0], r[1], r[2], r[3] = False, detail, fn, path
+        return ok
+
+    def emit(self, ctx):
+        for k in self.order:
+            ok, detail, fn, path = self.d[k]
+            ctx.ob(k[0], k[1], ok, loc=k[2], detail=detail, fn=fn, path=path)
+
+
+# --------------------------------------------------------------------------
+# R-C08a: the poster
+# --------------------------------------------------------------------------
+
 def post(ctx):
     prog = ctx.prog
-    f = prog.fn('iv_event_post')
-    wake = ('iv_task_register', 'iv_event_raw_post')
-    g = Inliner(prog, stop=lambda t: t.name in wake + ('iv_task_registered',)).inline(f)
+    f = prog.fn('iv_event_post')                      # exported API
+    if not f.params:
+        raise AnalysisBroken('iv_event_post: no parameter')
+    P = f.params[0]['name']
+    g = h08.inline(prog, f, stop=lambda t: t.name in WAKE + ('iv_task_registered',))
+    if P in h08.written_vars(g):
+        raise AnalysisBroken('iv_event_post: the event parameter is reassigned')
+    for e in g.events():
+        if e['ev'] == 'store' and OWNER in lvalue_steps(e['lhs']):
+            raise AnalysisBroken('iv_event_post writes iv_event.owner')
+    acc = Acc()
+
+    # the class of values "owner of the event being posted": E->owner for the parameter E, every local that
+    # holds a copy of it, and what compared equal to it on the edge taken
+    def posted_event(x):
+        return P in h08.spellings(x)
+
+    def owner_direct(x):
+        m = strip(x)
+        return isinstance(m, dict) and m.get('k') == 'member' and (m.get('record'), m['field']) == OWNER and posted_event(m['base'])
+
+    def owner_gen(x, S):
+        return h08.in_class(x, S, owner_direct)
+    OWN = h08.value_sets(g, owner_gen)
+
+    # the calling thread's own state (iv_get_state(), directly or through a local) designates the owner on paths
+    # over an edge on which the two compared equal
+    SELF = h08.value_sets(g, lambda x, S: h08.in_class(x, S, _is_own_state))
+
+    def self_is_owner_edge(blk, si, s):
+        if blk.term and blk.term.get('cond') is not None and len(blk.succ) == 2 and blk.term.get('cls') not in ('SwitchStmt', 'MethodDispatch'):
+            at_end = (blk.id, len(blk.events))
+            for (op, lc, rc, l, r) in norm_cond(blk.term['cond'], si == 0):
+                if op == '==' and isinstance(l, dict) and isinstance(r, dict):
+                    for a, b in ((l, r), (r, l)):
+                        if owner_gen(a, OWN.get(at_end, frozenset())) and h08.in_class(b, SELF.get(at_end, frozenset()), _is_own_state):
+                            return True
+        return s
+    _, SELF_OWNS = forward(g, False, lambda e, s: s, lambda a, b: a and b, edge=self_is_owner_edge)
+
+    def owner_at(x, e):
+        if x is None:
+            return False
+        if owner_gen(x, OWN.get(pt(e), frozenset())):
+            return True
+        return bool(SELF_OWNS.get(pt(e))) and h08.in_class(x, SELF.get(pt(e), frozenset()), _is_own_state)
+
     ls = locksets(g)
-    adds = [e for e in g.events() if is_call(e, ('iv_list_add', 'iv_list_add_tail')) and c01._list_arg_member(e) == ('iv_event', 'list')]
-    tests = [e for e in g.events() if is_call(e, 'iv_list_empty') and last_member(strip(e['args'][0]).get('e')) == ('iv_state', 'events_pending')]
+    adds = [e for e in g.events() if e['ev'] == 'call' and is_call(e, ADD) and len(e['args']) == 2
+            and (h08.list_class(e['args'][0], ()) == 'link' or h08.list_class(e['args'][1], ()) == 'pending')]
+    tests = [e for (e, cls, what) in h08.list_accesses(g, ())
+             if (cls == 'pending' and is_call(e, 'iv_list_empty')) or (cls == 'node of pending' and e['ev'] == 'load')]
     if not adds or not tests:
         raise AnalysisBroken('iv_event_post: add or emptiness test of the pending list not found')
+    testids = {id(e) for e in tests}
+
+    # since the last lock operation on the list mutex, the emptiness of the pending list was read (with the mutex held)
+    def tr_tested(e, s):
+        if any(lid == EVL for (_, lid) in lock_effect(e)):
+            return False
+        if id(e) in testids:
+            return EVL in held(ls.get(pt(e)))
+        return s
+    _, tested = forward(g, False, tr_tested, lambda a, b: a and b)
+    def region(e):
+        return frozenset(x for x in (ls.get(pt(e)) or ()) if x[0] == EVL)
+    # ... and the emptiness is never sampled in a critical section other than one that performs the add
+    tests_locked = all(region(t) and any(region(t) == region(a) for a in adds) for t in tests)
     for a in adds:
-        ra = [x for x in ls.get((a['_b'], a['_i']), ()) if x[0] == EVL]
-        mp = must_pass(g, lambda e: e in tests)
-        ok = bool(ra) and bool(mp.get((a['_b'], a['_i'])))
-        for t in tests:
-            rt = [x for x in ls.get((t['_b'], t['_i']), ()) if x[0] == EVL]
-            ok = ok and rt == ra
-        ctx.ob('R-C08a', 'iv_event_post:test-then-add-one-region', ok, loc=a['loc'],
-               detail='emptiness test precedes the add, both inside the same acquisition of the owner\'s event_list_mutex', fn=f.q)
-    # force the "was empty" edge and require a wake-up on every remaining path
+        ok = EVL in held(ls.get(pt(a))) and bool(tested.get(pt(a))) and tests_locked
+        acc.add('R-C08a', 'iv_event_post:test-then-add-one-region', a['loc'], ok,
+                'the emptiness of the pending list is read before the add, inside the same acquisition of the owner\'s '
+                'event_list_mutex; no such read happens without the mutex or in another critical section', f.q, None if ok else path_to(g, a))
+        # ... and it is the owner's list the event is queued on
+        ev_ok = posted_event(h08.container_ptr(a['args'][0], LINK) or {})
+        head_ok = owner_at(h08.container_ptr(a['args'][1], PENDING), a)
+        acc.add('R-C08a', 'iv_event_post:queued-on-owners-list', a['loc'], ev_ok and head_ok,
+                'the posted event\'s own link is added to the pending list of the state its owner field designates: %s' % describe(a), f.q)
+    for t in tests:
+        x = t['args'][0] if t['ev'] == 'call' else _head_of(strip_load(t['e']))
+        acc.add('R-C08a', 'iv_event_post:tests-owners-list', t['loc'], owner_at(h08.container_ptr(x, PENDING), t),
+                'the pending list whose emptiness decides the kick is the owner\'s: %s' % describe(t), f.q)
+    for e in g.events():
+        if e['ev'] == 'call' and any(lid == EVL for (_, lid) in lock_effect(e)):
+            acc.add('R-C08a', 'iv_event_post:region-of-owners-mutex', e['loc'], owner_at(h08.container_ptr(e['args'][0], EVL_KEY), e),
+                    'the list mutex taken/released is the owner\'s: %s' % describe(e), f.q)
+
+    # force the "was empty" edge and require a wake-up on every remaining path.  The outcome of the test may
+    # also sit in a plain local (`was_empty = iv_list_empty(&dst->events_pending)`): the class of variables
+    # holding the result of an emptiness test of the pending list / of the event's own link
+    def result_of(callee, key):
+        def direct(x):
+            c = strip(x)
+            return isinstance(c, dict) and c.get('k') == 'call' and c.get('callee') == callee and c.get('args') \
+                and last_member(h08.member_of(c['args'][0])) == key
+        sets = h08.value_sets(g, lambda x, S: h08.in_class(x, S, direct))
+
+        def truth(at, blk):
+            """'true' / 'false' when the atom (taken at the end of blk) says the call returned non-zero / zero"""
+            (op, lc, rc, l, r) = at
+            if rc != '0' or op not in ('==', '!=') or not isinstance(l, dict):
+                return None
+            if direct(l) or h08.in_class(l, sets.get((blk.id, len(blk.events)), frozenset()), lambda x: False):
+                return 'true' if op == '!=' else 'false'
+            return None
+        return truth
+    pending_empty = result_of('iv_list_empty', PENDING)
+    unqueued = result_of('iv_list_empty', LINK)
+    task_registered = result_of('iv_task_registered', LOCAL)
+
     def keep(blk, si, atoms):
         for at in atoms:
-            t = list_empty_test(at, member_key=('iv_state', 'events_pending'))
-            if t == 'nonempty':
-                return False
-            t2 = list_empty_test(at, member_key=('iv_event', 'list'))
-            if t2 == 'nonempty':
-                return False       # event already queued: nothing added, nothing to wake
+            if pending_empty(at, blk) == 'false' or unqueued(at, blk) == 'false':
+                return False       # pending list not empty: no kick owed; event already queued: nothing added
         return None
     gf = force_edges(g, keep)
     prune_infeasible(gf)
+
+    def send_site(e):
+        return e['ev'] == 'call' and callback_kind(e) == ('method', 'event_send')
+
     def woke(e):
-        if is_call(e, wake):
-            return True
-        if e['ev'] == 'call' and callback_kind(e) == ('method', 'event_send'):
-            return True
-        return False
+        return (e['ev'] == 'call' and is_call(e, WAKE)) or send_site(e)
+
     def tr(e, s):
         return True if woke(e) else s
+
     def edge(blk, si, s):
         if blk.term and blk.term.get('cond') is not None and len(blk.succ) == 2:
-            for (op, lc, rc, l, r) in norm_cond(blk.term['cond'], si == 0):
-                c = strip(l)
-                if isinstance(c, dict) and c.get('k') == 'call' and c.get('callee') == 'iv_task_registered' and op == '!=' and rc == '0':
+            for at in norm_cond(blk.term['cond'], si == 0):
+                if task_registered(at, blk) == 'true':
                     return True       # the owner-local task is already registered: it will run the events
         return s
     _, ev_in = forward(gf, False, tr, lambda a, b: a and b, edge=edge)
@@ -77,134 +217,333 @@ def post(ctx):
     reach = [p for p in pts if p in ev_in]
     if not reach:
         raise AnalysisBroken('iv_event_post: no exit reachable on the list-was-empty path')
-    ok = all(ev_in[p] for p in reach)
-    ctx.ob('R-C08a', 'iv_event_post:empty-implies-wake', ok, loc=f.loc,
+    ctx.ob('R-C08a', 'iv_event_post:empty-implies-wake', all(ev_in[p] for p in reach), loc=f.loc,
            detail='on every path on which the pending list was empty and the event was added, the owner is woken '
                   '(iv_task_register / already registered, iv_event_raw_post, method->event_send)', fn=f.q)
-    # the wake-up goes to the owner of the event
-    owner = None
-    for e in g.events():
-        if e['ev'] in ('store', 'decl'):
-            rhs = e.get('rhs') if e['ev'] == 'store' else e.get('init')
-            if rhs is not None and last_member(rhs) == ('iv_event', 'owner'):
-                owner = canon(e['lhs']) if e['ev'] == 'store' else e['name']
-    if owner is None:
-        raise AnalysisBroken('iv_event_post: owner variable not found')
+
+    # the wake-up goes to the owner of the event, over the transport the owner listens on
+    modes = _raw_mode_flags(prog)
     hd = holding(g, user_call_kills=False)
-    for e in g.events():
-        if is_call(e, 'iv_event_raw_post'):
-            tgt = canon(e['args'][0])
-            ctx.ob('R-C08a', 'iv_event_post:raw-post-targets-owner', tgt == '&%s->events_kick' % owner, loc=e['loc'],
-                   detail='the raw event posted is the owner\'s kick (%s), not the poster\'s' % tgt, fn=f.q)
-        elif e['ev'] == 'call' and callback_kind(e) == ('method', 'event_send'):
-            ctx.ob('R-C08a', 'iv_event_post:send-targets-owner', canon(e['args'][0]) == owner, loc=e['loc'],
-                   detail='method->event_send(%s)' % canon(e['args'][0]), fn=f.q)
-        elif is_call(e, 'iv_task_register'):
-            tgt = canon(e['args'][0])
-            base = tgt[1:].split('->')[0] if tgt.startswith('&') else tgt
-            A = hd.get((e['_b'], e['_i']), frozenset())
-            same = base == owner or any(a[0] == '==' and {a[1], a[2]} == {owner, base} for a in A)
-            ctx.ob('R-C08a', 'iv_event_post:local-task-is-owners', same and tgt.endswith('->events_local'), loc=e['loc'],
-                   detail='the local task registered is the owner\'s (%s), on the edge poster == owner' % tgt, fn=f.q)
-    # each transport arm wakes: count distinct wake kinds present
+
+    def in_mode(e, op):
+        A = hd.get(pt(e), frozenset())
+        return any(atoms_imply(A, op, m, '0') for m in modes)
     kinds = set()
-    for e in gf.events():
-        if is_call(e, 'iv_task_register'):
-            kinds.add('local task')
+    for e in g.events():
+        if not woke(e):
+            continue
+        a0 = e['args'][0] if e.get('args') else None
+        if is_call(e, 'iv_event_raw_post') or send_site(e):
+            raw = is_call(e, 'iv_event_raw_post')
+            acc.add('R-C08a', 'iv_event_post:transport-matches-registration:%s' % ('raw' if raw else 'send'), e['loc'],
+                    in_mode(e, '!=' if raw else '=='),
+                    'the %s is used only where %s %s 0, the condition under which iv_event_register %s the owner\'s kick raw event'
+                    % ('raw-event post' if raw else 'poll-method send', '/'.join(sorted(modes)), '!=' if raw else '==',
+                       'registers' if raw else 'does not register'), f.q)
         if is_call(e, 'iv_event_raw_post'):
             kinds.add('raw event')
-        if e['ev'] == 'call' and callback_kind(e) == ('method', 'event_send'):
+            acc.add('R-C08a', 'iv_event_post:raw-post-targets-owner', e['loc'], owner_at(h08.container_ptr(a0, KICK), e),
+                    'the raw event posted is the kick of the owner, not the poster\'s (%s)' % canon(a0), f.q)
+        elif send_site(e):
             kinds.add('method send')
+            acc.add('R-C08a', 'iv_event_post:send-targets-owner', e['loc'], owner_at(a0, e),
+                    'method->event_send(%s) is given the owner' % canon(a0), f.q)
+        else:
+            kinds.add('local task')
+            acc.add('R-C08a', 'iv_event_post:local-task-is-owners', e['loc'], owner_at(h08.container_ptr(a0, LOCAL), e),
+                    'the local task registered (in the calling thread) is the owner\'s, i.e. on the edge poster == owner (%s)' % canon(a0), f.q)
+        acc.add('R-C08a', 'iv_event_post:wake-outside-list-lock:%s' % (e.get('callee') or 'event_send'), e['loc'],
+                EVL not in held(ls.get(pt(e))), 'the wake-up is issued without the owner\'s list mutex held', f.q)
+    acc.emit(ctx)
+    # each transport arm is present
     ctx.ob('R-C08a', 'iv_event_post:three-transports', kinds == {'local task', 'raw event', 'method send'}, loc=f.loc,
            detail='wake-up transports present: %s' % sorted(kinds), fn=f.q)
-    # the wake-up happens after the lock was dropped or at least not while holding another lock: posting cannot deadlock on itself
-    for e in g.events():
-        if woke(e):
-            ctx.ob('R-C08a', 'iv_event_post:wake-outside-list-lock:%s' % (e.get('callee') or 'event_send'),
-                   EVL not in held(ls.get((e['_b'], e['_i']))), loc=e['loc'],
-                   detail='the wake-up is issued without the owner\'s list mutex held', fn=f.q)
+
+
+def _raw_mode_flags(prog):
+    """The global(s) whose being non-zero is the condition under which iv_event_register registers the owner's
+    kick raw event (the transport selector the poster has to agree with)."""
+    f = prog.fn('iv_event_register')                  # exported API
+    g = h08.inline(prog, f, stop=lambda t: t.name == 'iv_event_raw_register')
+    sites = [e for e in g.events() if e['ev'] == 'call' and is_call(e, 'iv_event_raw_register') and e.get('args')
+             and last_member(h08.member_of(e['args'][0])) == KICK]
+    if not sites:
+        raise AnalysisBroken('iv_event_register: registration of the kick raw event not found')
+    shared = {x['name'] for e in g.events() for x in walk(e) if x.get('k') == 'var' and x.get('vk') in ('global', 'staticlocal')}
+    for blk in g.blocks.values():
+        if blk.term and blk.term.get('cond') is not None:
+            shared |= {x['name'] for x in walk(blk.term['cond']) if x.get('k') == 'var' and x.get('vk') in ('global', 'staticlocal')}
+    hd = holding(g, user_call_kills=False)
+    modes = None
+    for e in sites:
+        here = {a[1] for a in hd.get(pt(e), frozenset()) if a[0] == '!=' and a[2] == '0' and a[1] in shared}
+        modes = here if modes is None else (modes & here)
+    if not modes:
+        raise AnalysisBroken('iv_event_register: no mode flag governs the registration of the kick raw event')
+    return modes
+
+
+def _head_of(m):
+    """for a read of H.next / p->next: the list head pointer expression (&H / p)"""
+    m = strip(m)
+    if isinstance(m, dict) and m.get('k') == 'member':
+        return m['base'] if m['arrow'] else {'k': 'addr', 'e': m['base']}
+    return None
+
+
+# --------------------------------------------------------------------------
+# R-C08b/c: the runner, in every context that reaches the handler call
+# --------------------------------------------------------------------------
+
+def _detaches(g):
+    return [e for e in g.events() if e['ev'] == 'call' and e.get('callee') in h08.DETACH and len(e['args']) == 2
+            and h08.list_class(e['args'][0], ()) == 'pending']
 
 
 def runner(ctx):
     prog = ctx.prog
-    f = prog.fn('__iv_event_run_pending_events')
-    ls = locksets(f)
-    steals = [e for e in f.events() if is_call(e, '__iv_list_steal_elements')]
-    if not steals:
-        raise AnalysisBroken('runner: batch detach not found')
-    for e in steals:
-        ctx.ob('R-C08b', 'runner:detach-under-lock', EVL in held(ls.get((e['_b'], e['_i']))), loc=e['loc'],
-               detail='the pending list is detached with the owner\'s mutex held', fn=f.q)
-    batch = canon(steals[0]['args'][1])
-    tests = [e for e in f.events() if is_call(e, 'iv_list_empty') and canon(e['args'][0]) == batch]
-    for e in tests:
-        ctx.ob('R-C08b', 'runner:batch-test-under-lock', EVL in held(ls.get((e['_b'], e['_i']))), loc=e['loc'],
-               detail='emptiness of the detached batch is read with the mutex held (posters unlink/relink events under it)', fn=f.q)
-    sites = [e for e in f.events() if callback_kind(e) == ('callback', 'event')]
-    if not sites:
-        raise AnalysisBroken('runner: handler call not found')
-    for cs in sites:
-        ctx.ob('R-C08b', 'runner:handler-without-lock', not held(ls.get((cs['_b'], cs['_i']))), loc=cs['loc'],
-               detail='handler is called with no lock held', fn=f.q)
-        obj = canon(strip(cs['fnexpr'])['base'])
-        # unlink under the lock before the handler, in every iteration
-        lps = loops(f)
-        h = innermost_loop(f, cs['_b'], lps)
-        def tr(e, s):
-            if is_call(e, ('iv_list_del', 'iv_list_del_init')) and canon(e['args'][0]) == '&%s->list' % obj:
-                return EVL in held(ls.get((e['_b'], e['_i'])))
+    ctxs, _ = h08.root_contexts(prog, h08.is_event_site, 'runner', anchor=h08.touches_event_handler)
+    acc = Acc()
+    for root, g, sites in ctxs:
+        ls = locksets(g)
+        det = _detaches(g)
+        if not det:
+            raise AnalysisBroken('runner (%s): detach of the pending list not found' % root.name)
+        batches = {canon(e['args'][1]) for e in det}
+
+        # a local head nothing was linked to yet is private memory
+        def tr_pub(e, s):
+            if e['ev'] == 'call' and e.get('callee') in h08.LIST_WRITERS and e['callee'] != 'INIT_IV_LIST_HEAD' \
+                    and any(canon(a) in batches for a in e.get('args', [])):
+                return True
             return s
-        def edge(blk, si, s):
-            return False if (h is not None and blk.succ[si] == h) else s
-        _, ev_in = forward(f, False, tr, lambda a, b: a and b, edge=edge)
-        ctx.ob('R-C08c', 'runner:unlinked-before-handler', bool(ev_in.get((cs['_b'], cs['_i']))), loc=cs['loc'],
-               detail='iv_list_del_init(&%s->list) under the mutex precedes the handler in every iteration' % obj, fn=f.q)
-        # after each handler the batch is re-tested (or known empty) before the next element is taken
-        # (the emptiness value computed under the lock before the handler decides loop exit)
+        _, published = forward(g, False, tr_pub, lambda a, b: a or b)
+        for (e, cls, what) in h08.list_accesses(g, batches):
+            if is_call(e, 'INIT_IV_LIST_HEAD') and cls == 'batch' and not published.get(pt(e)):
+                continue
+            if e in det:
+                inst = 'runner:detach-under-lock'
+                detail = 'the pending list is detached with the owner\'s mutex held'
+            elif is_call(e, 'iv_list_empty') and cls == 'batch':
+                inst = 'runner:batch-test-under-lock'
+                detail = 'emptiness of the detached batch is read with the mutex held (posters unlink/relink events under it)'
+            else:
+                inst = 'runner:list-access-under-lock'
+                detail = '%s (%s) happens with the owner\'s mutex held' % (what, cls)
+            ok = EVL in held(ls.get(pt(e)))
+            acc.add('R-C08b', inst, e['loc'], ok, detail, root.q, None if ok else path_to(g, e))
+        for cs in sites:
+            acc.add('R-C08b', 'runner:handler-without-lock', cs['loc'], not held(ls.get(pt(cs))),
+                    'handler is called with no lock held', root.q)
+            ok, obj = _unlinked_before(g, cs, ls)
+            acc.add('R-C08c', 'runner:unlinked-before-handler', cs['loc'], ok,
+                    'between the definition of %s and %s the event\'s link is removed from the batch (iv_list_del*) with the mutex held, '
+                    'on every path' % (obj, describe(cs)), root.q, None if ok else path_to(g, cs))
+    acc.emit(ctx)
     null_rule(ctx, 'R-C08g', ('iv_event.c',))
 
 
+def _unlinked_before(g, cs, ls):
+    """Since the last definition of the object whose handler is called -- and since the last handler
+    call -- the object's link was removed from its list under the list mutex.  Independent of the loop
+    form.  The object may be designated as &obj->list or by the list pointer it was derived from
+    (obj = container_of(p, iv_event, list); iv_list_del_init(p))."""
+    fe = strip(cs['fnexpr'])
+    objx = fe['base']
+    obj = canon(objx)
+    rv = root_var(objx)
+    rootname = rv['name'] if rv is not None else None
+
+    def tr(e, s):
+        if e['ev'] == 'store' and rootname is not None and h08.var_name(e['lhs']) == rootname:
+            r = strip(e.get('rhs')) if 'rhs' in e else None
+            al = frozenset()
+            if isinstance(r, dict) and r.get('k') == 'container_of' and (r.get('record'), r.get('member')) == LINK:
+                al = frozenset(h08.spellings(r['e']))
+            return ('D', al)
+        if e['ev'] == 'decl' and e['name'] == rootname:
+            return None
+        if e['ev'] == 'call' and is_call(e, UNLINK + ('INIT_IV_LIST_HEAD',)) and e.get('args') and s is not None:
+            a = e['args'][0]
+            o = h08.container_ptr(a, LINK)
+            hit = (o is not None and h08.same(o, objx)) or (isinstance(s, tuple) and bool(h08.spellings(a) & s[1]))
+            if hit:
+                locked = EVL in held(ls.get(pt(e)))
+                if is_call(e, 'iv_list_del_init'):
+                    return 'U' if locked else ('D', frozenset())
+                if is_call(e, 'iv_list_del'):
+                    # taken off the list, but the link is poisoned: reads as queued until it is re-initialised
+                    return ('X', s[1] if isinstance(s, tuple) else frozenset()) if locked else ('D', frozenset())
+                if isinstance(s, tuple) and s[0] == 'X':
+                    return 'U' if locked else ('D', frozenset())
+                return s
+        if e['ev'] == 'call' and (e.get('callee') in h08.LIST_WRITERS or 'fnexpr' in e) and isinstance(s, tuple):
+            s = (s[0], frozenset())         # the list changed: the pointer the object was derived from may designate another node
+        if h08.is_event_site(e):
+            return None                     # the handler ran: the event may be queued again
+        return s
+
+    def join(a, b):
+        if a == b:
+            return a
+        if a is None or b is None:
+            return None
+        if isinstance(a, tuple) and isinstance(b, tuple):
+            return ('D' if 'D' in (a[0], b[0]) else 'X', a[1] & b[1])
+        return a if isinstance(a, tuple) else b
+    _, ev_in = forward(g, None, tr, join)
+    return ev_in.get(pt(cs)) == 'U', obj
+
+
+# --------------------------------------------------------------------------
+# R-C08d: who enters the runner, for which state
+# --------------------------------------------------------------------------
+
 def who_runs(ctx):
     prog = ctx.prog
-    r = prog.fn('__iv_event_run_pending_events')
-    direct = {c.name for c, e in prog.callers_of(r.name)}
-    ctx.ob('R-C08d', 'runner:direct-callers', direct <= {'iv_event_run_pending_events'}, loc=r.loc,
-           detail='direct callers: %s' % sorted(direct), fn=r.q)
-    pollfns = set()
-    for t, slots in prog.method_tables().items():
-        pollfns.add(slots['poll'][1])
-    outer = {c.name for c, e in prog.callers_of('iv_event_run_pending_events')}
-    ctx.ob('R-C08d', 'runner:wrapper-callers', outer <= pollfns and bool(outer), loc=r.loc,
-           detail='iv_event_run_pending_events is called only from poll slots: %s' % sorted(outer), fn=r.q)
-    # in those poll slots the call is reached only if the kick token compared equal to this thread's state
-    bysite = {}
-    for c, e in prog.callers_of('iv_event_run_pending_events'):
-        # every path to the call crosses an edge on which a kernel token compared equal to this thread's state
-        stn = c.params[0]['name'] if c.params else 'st'
-        def edge(blk, si, s, stn=stn):
-            if blk.term and blk.term.get('cond') is not None and len(blk.succ) == 2:
+    ctxs, cl = h08.root_contexts(prog, h08.is_event_site, 'runner', anchor=h08.touches_event_handler)
+    rts = {r.q: r for r in roles.roots(prog)}
+    polls = {f.q for f in prog.slot_targets('poll')}
+    acc = Acc()
+
+    # 1. classification of every entry point from which the handler call is reachable
+    # 2. an entry point whose address is taken is an installed handler: in every context that mentions it, its address is
+    #    only stored into the handler field of a state's own local task / kick raw event, with that state as cookie
+    kind = {}
+    taken = roles.address_taken(prog)
+    for q in sorted(cl):
+        if q not in rts:
+            continue
+        r = cl[q]
+        if q in polls:
+            kind[q] = 'poll slot'
+            det = 'poll slot (gated by the kick token, below)'
+        elif q in taken:
+            ninst, others = _installations(prog, r, acc)
+            kind[q] = 'handler' if ninst and not others else None
+            det = 'its address is used only for %d handler installations (targets and cookies checked separately)' % ninst if kind[q] else \
+                'address-taken entry point with %d installations as handler and other uses: %s' % (ninst, '; '.join(others[:4]) or '-')
+        elif not r.static and r.name == WRAPPER:
+            kind[q] = 'wrapper'
+            det = 'exported wrapper, address never taken (runs the calling thread\'s state, checked below)'
+        else:
+            kind[q] = None
+            det = 'unexpected entry point (%s) from which the iv_event handler call is reachable' % ('static' if r.static else 'external linkage')
+        ctx.ob('R-C08d', 'runner:entry:%s' % r.name, kind[q] is not None, loc=r.loc, detail=det, fn=r.q)
+    if 'handler' not in kind.values():
+        raise AnalysisBroken('no installed handler reaches the iv_event handler call')
+
+    # 3. the state whose events are run: the cookie (handler roots) or the calling thread's own state
+    for root, g, sites in ctxs:
+        for d in _detaches(g):
+            X = h08.container_ptr(d['args'][0], PENDING)
+            rv = root_var(X) if X is not None else None
+            origin = 'unknown'
+            if rv is not None:
+                name = rv['name']
+                defs = [e for e in g.events() if e['ev'] == 'store' and h08.var_name(e['lhs']) == name]
+                if not defs and name in {p['name'] for p in root.params}:
+                    origin = 'cookie'
+                elif defs and all('rhs' in e and _is_own_state(e['rhs']) for e in defs):
+                    origin = 'own'
+            ok = origin == 'own' or (origin == 'cookie' and kind.get(root.q) == 'handler')
+            acc.add('R-C08d', 'runner:runs-state-of:%s' % root.name, d['loc'], ok,
+                    'entered through %s the runner detaches the pending list of %s: %s' % (
+                        root.name, canon(X) if X is not None else '?',
+                        {'own': 'the calling thread\'s state (iv_get_state())', 'cookie': 'the cookie its handler was installed with',
+                         'unknown': 'a state of unknown origin'}[origin]), root.q)
+
+    # 4. poll slots: the handler call is reached only over an edge on which a token the kernel reported
+    #    compared equal to this thread's own state
+    for root, g, sites in ctxs:
+        if kind.get(root.q) != 'poll slot':
+            continue
+        stp = [p['name'] for p in root.params if p.get('record') == 'iv_state']
+        if not stp:
+            raise AnalysisBroken('%s: no state parameter' % root.name)
+        arrays = set()
+        for e in g.events():
+            if e['ev'] == 'call' and e.get('callee') in WAITS:
+                rv = root_var(e['args'][WAITS[e['callee']]])
+                if rv is not None:
+                    arrays.add(rv['name'])
+
+        def is_state(x, stp=stp):
+            return isinstance(x, dict) and stp[0] in h08.spellings(x)
+
+        def is_token(x, arrays=arrays):
+            if not isinstance(x, dict) or h08.var_name(x) is not None:
+                return False
+            if any(y.get('k') == 'member' and y.get('record') in KERNEL_RECORDS for y in walk(x)):
+                return True
+            rv = root_var(x)
+            return rv is not None and rv['name'] in arrays
+
+        def edge(blk, si, s):
+            if blk.term and blk.term.get('cond') is not None and len(blk.succ) == 2 \
+                    and blk.term.get('cls') not in ('SwitchStmt', 'MethodDispatch'):
                 for (op, lc, rc, l, r) in norm_cond(blk.term['cond'], si == 0):
-                    if op == '==' and {stn} & {lc, rc} and ('data.ptr' in lc or 'data.ptr' in rc):
+                    if op == '==' and ((is_state(l) and is_token(r)) or (is_state(r) and is_token(l))):
                         return True
             return s
-        _, ev_in = forward(c, False, lambda ev, s: s, lambda a, b: a and b, edge=edge)
-        k = (c.q, e['loc'])
-        bysite[k] = (c, e, bysite.get(k, (None, None, True))[2] and bool(ev_in.get((e['_b'], e['_i']))))
-    for k, (c, e, ok) in sorted(bysite.items()):
-        ctx.ob('R-C08d', '%s:own-kick-token' % c.name, ok, loc=e['loc'],
-               detail='pending events are run only if a batch entry carried this thread\'s own state pointer as token', fn=c.q)
-    # address of the runner is installed only as handler of the owner-local task and the kick raw event
-    inst = []
-    for fn in prog.all_funcs():
-        for e in fn.events():
-            if e['ev'] == 'store' and canon(e.get('rhs', {})) == r.name:
-                inst.append((fn, e))
-    okk = bool(inst) and all(canon(e['lhs']) in ('st->events_local.handler', 'st->events_kick.handler') for fn, e in inst)
-    ctx.ob('R-C08d', 'runner:installed-as', okk, loc=inst[0][1]['loc'] if inst else r.loc,
-           detail='stored into: %s' % sorted(canon(e['lhs']) for fn, e in inst), fn=r.q)
-    # ... with the state block as cookie
-    for fn, e in inst:
-        ck = canon(e['lhs']).replace('.handler', '.cookie')
-        cs = [x for x in fn.events() if x['ev'] == 'store' and canon(x['lhs']) == ck]
-        ctx.ob('R-C08d', 'runner:cookie:%s' % ck, bool(cs) and all(canon(x['rhs']) == 'st' for x in cs), loc=e['loc'],
-               detail='%s = st (the runner runs the events of the state block it is given)' % ck, fn=fn.q)
+        _, ev_in = forward(g, False, lambda ev, s: s, lambda a, b: a and b, edge=edge)
+        for cs in sites:
+            ok = bool(ev_in.get(pt(cs)))
+            acc.add('R-C08d', '%s:own-kick-token' % root.name, root.loc, ok,
+                    'pending events are run only if a batch entry carried this thread\'s own state pointer as token', root.q,
+                    None if ok else path_to(g, cs))
+    acc.emit(ctx)
+
+    # 5. every poll method that offers the kick transport consumes the kick: its poll slot reaches the runner
+    for t, slots in sorted(prog.method_tables().items()):
+        if not slots.get('event_send'):
+            continue
+        pf = prog.resolve(*slots['poll']) if slots.get('poll') else None
+        ctx.ob('R-C08d', 'kick-consumer:%s' % t.replace('iv_fd_poll_method_', ''), pf is not None and kind.get(pf.q) == 'poll slot',
+               loc=pf.loc if pf is not None else None,
+               detail='the poll slot of a method with an event_send slot runs the pending events', fn=pf.q if pf is not None else None)
+
+
+def _installations(prog, r, acc):
+    """Uses of r's address in every entry-point context that mentions it: (#handler installations, [other uses]).
+    A store into a plain local (parameter passing, caching) is not a use: reads of the local are resolved by
+    h08.normalise, so the use shows up where the value ends."""
+    def fref(x):
+        x = strip(x)
+        if isinstance(x, dict) and x.get('k') == 'addr':
+            x = strip(x['e'])
+        return isinstance(x, dict) and x.get('k') == 'var' and x.get('vk') == 'func' and x['name'] == r.name
+
+    def mentions(e):
+        return e['ev'] not in ('enter', 'load') and any(x.get('k') == 'var' and x.get('vk') == 'func' and x['name'] == r.name for x in walk(e))
+    ictxs, _ = h08.root_contexts(prog, mentions, 'uses of the address of %s' % r.name)
+    ninst, others = set(), []
+    for root, g, sites in ictxs:
+        for e in sites:
+            if not (e['ev'] == 'store' and 'rhs' in e and fref(e['rhs'])):
+                others.append('%s in %s' % (describe(e), root.name))
+                continue
+            if h08.var_name(e['lhs']) is not None:
+                continue
+            lhs = strip(e['lhs'])
+            sub = strip(lhs['base']) if lhs.get('k') == 'member' and not lhs['arrow'] else None
+            key = (sub.get('record'), sub['field']) if isinstance(sub, dict) and sub.get('k') == 'member' else None
+            ok = lhs.get('k') == 'member' and lhs['field'] == 'handler' and key in (LOCAL, KICK)
+            ninst.add(e['loc'])
+            acc.add('R-C08d', 'runner:installed-as', e['loc'], ok,
+                    'the runner is installed as handler of a state\'s events_local task / events_kick raw event only: %s' % describe(e), root.q)
+            if not ok:
+                continue
+            state = sub['base'] if sub['arrow'] else {'k': 'addr', 'e': sub['base']}
+            cks = [x for x in g.events() if x['ev'] == 'store' and strip(x['lhs']).get('k') == 'member' and strip(x['lhs'])['field'] == 'cookie'
+                   and not strip(x['lhs'])['arrow'] and canon(strip(x['lhs'])['base']) == canon(sub)]
+            okc = bool(cks) and all('rhs' in x and h08.same(x['rhs'], state) for x in cks)
+            acc.add('R-C08d', 'runner:cookie:%s' % key[1], e['loc'], okc,
+                    'the cookie of %s is the state block that contains it (%s): the runner runs the events of the state whose '
+                    'task / raw event fired' % (canon(sub), ', '.join(describe(x) for x in cks) or 'no cookie store'), root.q)
+    return len(ninst), others
+
+
+def _is_own_state(x):
+    c = strip(x)
+    return isinstance(c, dict) and c.get('k') == 'call' and c.get('callee') == 'iv_get_state'
